@@ -1,6 +1,132 @@
-From Coq Require Import Reals List Arith.
+(* C06  Estimators: the Jacobian is the derivative, converged => residual < atol, rotation / mirror
+   equivariance of MEM, of the MEM2 constraint function / distribution and of the first guess.
+   Only statements; every proof is [exact lemma].  Model: OSU.Model.Estimators. *)
+From Coq Require Import Reals List Arith Lra.
+From Coquelicot Require Import Coquelicot.
 From OSU.Model Require Import Estimators.
-From OSU.Proofs Require Import Estimators.
+From OSU.Proofs Require Import Estimators Estimators2 Estimators3 Estimators4 Estimators5.
 Import ListNotations.
-Theorem to_2d_length : forall e D, length (to_2d e D) = Nat.min (length e) (length D).
-Proof. exact to_2d_length. Qed.
+Open Scope R_scope.
+
+(* ---- the Jacobian used by the Newton step is the derivative of the moment-constraint function:
+   entry (m,n) of mem2_jacobian = d constraint_m / d lambda_n, for EVERY lambda, every grid with positive
+   increments (the min-shift inside the code does not matter) *)
+Theorem jacobian_is_derivative : forall l mo d th m n,
+  th <> [] -> length d = length th -> List.Forall (fun x => 0 < x) d ->
+  is_derive (fun x => get4 (constraints (set4 l n x) mo d th) m) (get4 l n) (jacobian l d th m n).
+Proof. exact jacobian_is_derivative. Qed.
+
+(* it is the covariance matrix of the twiddle factors under the current distribution *)
+Theorem jacobian_closed : forall l d th m n,
+  th <> [] -> length d = length th -> List.Forall (fun x => 0 < x) d ->
+  jacobian l d th m n =
+  S2f m n l d th / Zf l d th - Pf m l d th * Pf n l d th / (Zf l d th * Zf l d th).
+Proof. exact jacobian_closed. Qed.
+
+(* the code computes the lower triangle and mirrors it; the formula itself is symmetric *)
+Theorem jac_lower_symmetric : forall l d th m n,
+  th <> [] -> length d = length th -> List.Forall (fun x => 0 < x) d ->
+  jac_lower l d th m n = jac_lower l d th n m.
+Proof. exact jac_lower_symmetric. Qed.
+
+Theorem jacobian_symmetric : forall l d th m n, jacobian l d th m n = jacobian l d th n m.
+Proof. exact jacobian_symmetric. Qed.
+
+(* the min-shifted code computes exp(-lambda.T_j) / sum_k exp(-lambda.T_k) d_k *)
+Theorem dist_closed : forall l d th,
+  th <> [] -> length d = length th -> List.Forall (fun x => 0 < x) d ->
+  dist l d th = map (fun t => Ef l t / Zf l d th) th.
+Proof. exact dist_closed. Qed.
+
+(* ---- Newton: status Converged => four-moment residual below atol; accepted steps never increase it *)
+Theorem newton_converged_residual : forall max_iter depth atol mo g d th,
+  newton_status (newton max_iter depth atol mo g d th) = Converged ->
+  norm4 (constraints (newton_iterate (newton max_iter depth atol mo g d th)) mo d th) < atol.
+Proof. exact newton_converged_residual. Qed.
+
+Theorem newton_residual_monotone : forall max_iter depth atol mo g d th,
+  norm4 (constraints (newton_iterate (newton max_iter depth atol mo g d th)) mo d th)
+  <= norm4 (constraints g mo d th).
+Proof. exact newton_residual_monotone. Qed.
+
+(* the residual is the difference between the wanted moments and those of the returned distribution *)
+Theorem constraints_are_moment_errors : forall l mo d th m,
+  get4 (constraints l mo d th) m
+  = get4 mo m - moment_of (match m with O => 0 | 1 => 1 | 2 => 2 | _ => 3 end)%nat (dist l d th) d th.
+Proof. exact constraints_are_moment_errors. Qed.
+
+(* solve_cholesky: success => the returned vector solves the symmetric system *)
+Theorem chol_solve_correct : forall A r x lg,
+  chol_solve A r = (Some x, lg) ->
+  matvec4 (symA A) x 0 = q1 r /\ matvec4 (symA A) x 1 = q2 r /\
+  matvec4 (symA A) x 2 = q3 r /\ matvec4 (symA A) x 3 = q4 r.
+Proof. exact chol_solve_correct. Qed.
+
+(* ---- rotation / mirror, any grid and any angle: rotating the moments by alpha = evaluating on the grid
+   shifted by -alpha; mirroring = evaluating on the negated grid *)
+Theorem mem_rotation_shift : forall th al m, mem4 th (rotm al m) = mem4 (shiftg al th) m.
+Proof. exact mem_rotation_shift. Qed.
+
+Theorem mem_mirror_neg : forall th m, mem4 th (mirm m) = mem4 (negg th) m.
+Proof. exact mem_mirror_neg. Qed.
+
+Theorem dist_rotation_shift : forall l al d th, dist (rotm al l) d th = dist l d (shiftg al th).
+Proof. exact dist_rotation_shift. Qed.
+
+Theorem dist_mirror_neg : forall l d th, dist (mirm l) d th = dist l d (negg th).
+Proof. exact dist_mirror_neg. Qed.
+
+Theorem constraints_rotation_shift : forall l mo al d th,
+  constraints (rotm al l) (rotm al mo) d th = rotm al (constraints l mo d (shiftg al th)).
+Proof. exact constraints_rotation_shift. Qed.
+
+Theorem constraints_mirror_neg : forall l mo d th,
+  constraints (mirm l) (mirm mo) d th = mirm (constraints l mo d (negg th)).
+Proof. exact constraints_mirror_neg. Qed.
+
+Theorem initial_value_rotation : forall al m, init4 (rotm al m) = rotm al (init4 m).
+Proof. exact initial_value_rotation. Qed.
+
+Theorem initial_value_mirror : forall m, init4 (mirm m) = mirm (init4 m).
+Proof. exact initial_value_mirror. Qed.
+
+(* ---- uniform grids (N dl = 2 pi), rotation by k bins: the output rotates by k bins *)
+Theorem mem_rotation_uniform : forall t0 dl n k m,
+  (0 < n)%nat -> INR n * dl = 2 * PI -> (k <= n)%nat ->
+  mem4 (ugrid t0 dl n) (rotm (INR k * dl) m) = option_map (rotl_list k) (mem4 (ugrid t0 dl n) m).
+Proof. exact mem_rotation_uniform. Qed.
+
+Theorem dist_rotation_uniform : forall t0 dl c n k,
+  (0 < n)%nat -> INR n * dl = 2 * PI -> (k <= n)%nat -> 0 < c ->
+  forall l, dist (rotm (INR k * dl) l) (map (fun _ => c) (ugrid t0 dl n)) (ugrid t0 dl n)
+            = rotl_list k (dist l (map (fun _ => c) (ugrid t0 dl n)) (ugrid t0 dl n)).
+Proof. exact dist_rotation_uniform. Qed.
+
+(* F(R lambda; R m) = R F(lambda; m): lambda solves for m iff R lambda solves for R m, same residual norm *)
+Theorem constraints_rotation_uniform : forall t0 dl c n k,
+  (0 < n)%nat -> INR n * dl = 2 * PI -> (k <= n)%nat -> 0 < c ->
+  forall l mo,
+    constraints (rotm (INR k * dl) l) (rotm (INR k * dl) mo) (map (fun _ => c) (ugrid t0 dl n)) (ugrid t0 dl n)
+    = rotm (INR k * dl) (constraints l mo (map (fun _ => c) (ugrid t0 dl n)) (ugrid t0 dl n)).
+Proof. exact constraints_rotation_uniform. Qed.
+
+Theorem residual_rotation_uniform : forall t0 dl c n k,
+  (0 < n)%nat -> INR n * dl = 2 * PI -> (k <= n)%nat -> 0 < c ->
+  forall l mo,
+    norm4 (constraints (rotm (INR k * dl) l) (rotm (INR k * dl) mo) (map (fun _ => c) (ugrid t0 dl n)) (ugrid t0 dl n))
+    = norm4 (constraints l mo (map (fun _ => c) (ugrid t0 dl n)) (ugrid t0 dl n)).
+Proof. exact residual_rotation_uniform. Qed.
+
+(* the grid of as_frequency_direction_spectrum is such a grid *)
+Theorem to_rad_linspace : forall n, (0 < n)%nat -> to_rad (linspace360 n) = ugrid 0 (2 * PI / INR n) n.
+Proof. exact to_rad_linspace. Qed.
+
+(* ---- non-vacuity *)
+Example uniform_premises : (0 < 36)%nat /\ INR 36 * (2 * PI / INR 36) = 2 * PI /\ (5 <= 36)%nat /\ 0 < 2 * PI / INR 36.
+Proof.
+  pose proof PI_RGT_0.
+  assert (0 < INR 36) by (apply lt_0_INR; repeat constructor).
+  repeat split; try (repeat constructor; fail).
+  - field. lra.
+  - apply Rdiv_lt_0_compat; lra.
+Qed.
